@@ -31,22 +31,33 @@ def crows(a) -> str:
     return "[" + "; ".join("[" + "; ".join(cz(int(v)) for v in row) + "]" for row in a) + "]"
 
 
-def mk_image(shape, dtype, rng):
+def mk_image(shape, dtype, rng, vary_nodata=False):
+    """distinct values 1..ny*nx (bool: random); the nodata value lies outside the data range because GDAL
+    nudges valid pixels that equal dst_nodata"""
     ny, nx = shape
     if dtype == "bool":
         im = np.array([[rng.random() < 0.5 for _ in range(nx)] for _ in range(ny)], dtype=bool).reshape(ny, nx)
-        return im, False
+        return im, (rng.random() < 0.5 if vary_nodata else False)
     im = (np.arange(ny * nx).reshape(ny, nx) + 1).astype(dtype)     # distinct values, <= 144
     nodata = 0 if dtype.startswith("u") else -1
+    if vary_nodata and rng.random() < 0.5:
+        nodata = 200 if dtype.startswith("u") else -7
     return im, nodata
 
 
-def real_warp(im, nodata, src, dst):
+def real_warp(im, nodata, src, dst, src_nodata=None, unset_if_default=False):
+    """rio_reproject(..., 'nearest'); the destination starts from a value different from nodata.
+    unset_if_default: leave dst_nodata unset when the requested fill is what the warp uses by itself
+    (False for bool, 0 for integers)."""
     from odc.geo.warp import rio_reproject
-    out = np.full(dst.shape, nodata, dtype=im.dtype)
+    init = (not nodata) if im.dtype == bool else (77 if nodata != 77 else 78)
+    out = np.full(dst.shape, init, dtype=im.dtype)
+    dn = nodata
+    if unset_if_default and im.dtype.kind in "bui" and not nodata:
+        dn = None
     with warnings.catch_warnings():
         warnings.simplefilter("ignore")
-        rio_reproject(im, out, src, dst, "nearest", dst_nodata=None if im.dtype == bool else nodata)
+        rio_reproject(im, out, src, dst, "nearest", src_nodata=src_nodata, dst_nodata=dn)
     return out
 
 
@@ -148,8 +159,9 @@ def gen_cases(out, tier, rng):
         if T != tuple(A6):
             out.count("warp:generator-escape")
             continue
-        im, nod = mk_image(ns, dtype, rng)
-        res = real_warp(im, nod, src, dst)
+        im, nod = mk_image(ns, dtype, rng, vary_nodata=True)
+        res = real_warp(im, nod, src, dst, unset_if_default=rng.random() < 0.5)
+        out.count(f"warp-nodata:{dtype}:{nod}")
         sample = None
         if shown < 2 and fam == "unit":
             shown += 1
@@ -181,8 +193,8 @@ def gen_cases(out, tier, rng):
         if not tie_free(G.true_A(src, dst), nd):
             out.count("plan-paste:tie-skipped")
             continue
-        im, nod = mk_image(ns, dtype, rng)
-        res = real_warp(im, nod, src, dst)
+        im, nod = mk_image(ns, dtype, rng, vary_nodata=True)
+        res = real_warp(im, nod, src, dst, unset_if_default=rng.random() < 0.5)
         add(f"plan-paste:{dtype}", f"CPlanPaste {G.cconsts()} {crows(im.astype(int))} {cz(int(nod))} {G.cpair(ns)} {G.cpair(nd)} "
             f"{G.caff(Ai)} {G.caff(Fi)} {cq(Fr(ttol))} {cq(Fr(stol))} {crows(res.astype(int))}",
             (dtype, ns, nd, str(G.aff6(Ai)), ttol, stol), bool((res != nod).any()))
@@ -263,7 +275,65 @@ def p_can_paste(A, stol, ttol):
     return True, why
 
 
-PREDICATES = {"paste_warp": p_paste_warp, "can_paste": p_can_paste}
+def nodata_candidates(dtype):
+    """(src_nodata values, dst_nodata values); None = unset; all values outside the data range 1..100
+    (bool has no such value: there a source pixel equal to src_nodata is invalid and yields the fill)"""
+    if dtype == "bool":
+        return [None, False, True], [None, False, True]
+    if dtype.startswith("float"):
+        return [None, -5.0], [None, "nan", -1.0, 0.0, 120.0]
+    if dtype.startswith("u"):
+        return [None, 200], [None, 0, 120]
+    return [None, -9], [None, 0, 120, -7]
+
+
+def p_warp_nodata(src_shape, dst_shape, A, dtype, src_nodata, dst_nodata, seed):
+    """pixel identity incl. the nodata fill, for every dtype and every way of giving src_nodata / dst_nodata:
+    warp(src) == planned paste + fill elsewhere, fill = dst_nodata if given, else NaN for floats, else
+    src_nodata if given, else 0 / False (the documented defaults of rio_reproject / rasterio)."""
+    from affine import Affine
+    from odc.geo.overlap import compute_reproject_roi
+    from odc.geo.warp import rio_reproject
+    rng = core.rng(f"c10-nodata-{seed}")
+    src, dst = G.mk_pair(tuple(src_shape), tuple(dst_shape), Affine(*[float(Fr(v)) for v in A]))
+    with warnings.catch_warnings():
+        warnings.simplefilter("ignore")
+        r = compute_reproject_roi(src, dst)
+    if not (r.paste_ok and r.read_shrink == 1):
+        return True, "no paste planned"
+    T = G.true_A(src, dst)
+    dn = float("nan") if dst_nodata == "nan" else dst_nodata
+    im, _ = mk_image(tuple(src_shape), dtype, rng)
+    if dn is not None:
+        fill = dn
+    elif dtype.startswith("float"):
+        fill = float("nan")
+    elif src_nodata is not None:
+        fill = src_nodata
+    else:
+        fill = False if dtype == "bool" else 0
+    want = np.full(tuple(dst_shape), fill, dtype=im.dtype)
+    block = im[r.roi_src]
+    if T[4] < 0:
+        block = block[::-1, :]
+    if T[0] < 0:
+        block = block[:, ::-1]
+    if src_nodata is not None:
+        block = np.where(block == src_nodata, np.array(fill, dtype=im.dtype), block)
+    want[r.roi_dst] = block
+    init = (not fill) if dtype == "bool" else 77
+    got = np.full(tuple(dst_shape), init, dtype=im.dtype)
+    with warnings.catch_warnings():
+        warnings.simplefilter("ignore")
+        rio_reproject(im, got, src, dst, "nearest", src_nodata=src_nodata, dst_nodata=dn)
+    cov = int(np.prod([s.stop - s.start for s in r.roi_dst]))
+    why = f"roi_src={r.roi_src} roi_dst={r.roi_dst} covered {cov} of {want.size} pixels, fill={fill}"
+    if not np.array_equal(got, want, equal_nan=dtype.startswith("float")):
+        return False, why + f": warp gives {got.tolist()} but pasted region + nodata elsewhere is {want.tolist()}"
+    return True, why
+
+
+PREDICATES = {"paste_warp": p_paste_warp, "can_paste": p_can_paste, "warp_nodata": p_warp_nodata}
 
 
 def search(out, tier):
@@ -305,6 +375,25 @@ def search(out, tier):
             kw["padding"] = rng.choice([0, None])
             kw["align"] = rng.choice([0, None])
         run("paste_warp", list(ns), list(nd), [str(v) for v in A6], kw, dtype, i)
+    # every dtype x every way of giving src_nodata / dst_nodata, destinations only partly covered by the source
+    reps = 2 if tier == "quick" else 12
+    seq = 0
+    for dtype in DTYPES:
+        sn, dn = nodata_candidates(dtype)
+        for s_nd in sn:
+            for d_nd in dn:
+                for _ in range(reps):
+                    ns = (rng.randint(2, 10), rng.randint(2, 10))
+                    nd = (rng.randint(2, 10), rng.randint(2, 10))
+                    sx, sy = rng.choice([1, -1]), rng.choice([1, -1])
+                    # shift so that the destination sticks out of the source on at least one side
+                    ox = rng.choice([-rng.randint(1, nd[1] - 1), ns[1] - rng.randint(1, nd[1] - 1) if nd[1] > 1 else ns[1] - 1])
+                    oy = rng.randint(-nd[0] + 1, ns[0] - 1)
+                    ex, ey = rng.choice([Fr(0), Fr(1, 64), Fr(-1, 32)]), rng.choice([Fr(0), Fr(-1, 64), Fr(1, 32)])
+                    A6 = [Fr(sx), Fr(0), Fr(ox + (nd[1] if sx < 0 else 0)) + ex, Fr(0), Fr(sy), Fr(oy + (nd[0] if sy < 0 else 0)) + ey]
+                    seq += 1
+                    out.count(f"nodata:{dtype}:src={s_nd}:dst={d_nd}")
+                    run("warp_nodata", list(ns), list(nd), [str(v) for v in A6], dtype, s_nd, d_nd, seq)
     for i in range(600 if tier == "quick" else 6000):
         ttol, stol = rng.choice(TTOLS), rng.choice(STOLS)
         k = rng.choice([1, 1, 2, 3, 4, 7, 10])
@@ -333,6 +422,8 @@ def run(out, tier, scratch):
     out.assumptions += [
         "GDAL nearest-neighbour warp meets the contract dst[d] = src[floor(A(d+1/2))] if inside else nodata (validated on every run, all dtypes)",
         "numpy slicing semantics of dst[roi_dst] = src[roi_src][::-1] (validated by the CPaste cases)",
+        "nodata fill of rio_reproject: dst_nodata if given, else NaN for floats, else src_nodata if given, else 0/False; source pixels equal "
+        "to src_nodata are invalid (validated for 8 dtypes x every src_nodata/dst_nodata combination on partly covered destinations)",
         "binary64 arithmetic abstracted to exact rationals",
     ]
     rng = core.rng("c10")
